@@ -21,6 +21,36 @@ ARITH = ["*", "+", "-", "*", "+"]
 PREFIX = ["-", "~", "!"]
 
 
+def spell(rng, n, features=None):
+    """A numeral: decimal, sometimes hexadecimal (`0x..`)."""
+    if rng.random() < 0.12:
+        if features is not None:
+            features.add("hex-literal")
+        return ("0x%x" if rng.random() < 0.5 else "0x%X") % n
+    return str(n)
+
+
+def big_literal(rng, p, features=None):
+    """Literals: small ones, the boundaries of the field, and literals that are NOT reduced: p, p + 1, 2p - 1, the
+    numbers in [p, 2^nbits) (as many bits as the prime), 2^nbits and beyond (2^256 - 1, a multiple of p plus a bit)."""
+    c = rng.random()
+    nb = p.bit_length()
+    if c < 0.4:
+        return spell(rng, rng.choice([0, 1, 2, 3, 5, 7, 8, 16, 255, 256]), features)
+    if c < 0.6:
+        return spell(rng, rng.choice([p - 1, p - 2, p // 2, p // 2 + 1, p // 2 - 1, 253, 254, 255, (1 << 64), (1 << 128) + 1]), features)
+    if c < 0.72:
+        return spell(rng, rng.randrange(p), features)
+    if c < 0.86:
+        if features is not None:
+            features.add("literal>=p")
+        k = rng.random()
+        if k < 0.45:       # as many bits as the prime, yet not smaller than it
+            return spell(rng, rng.choice([p, p + 1, p + 2, (1 << nb) - 1, (1 << nb) - 2, rng.randrange(p, 1 << nb), p + rng.randrange(1, 300)]), features)
+        return spell(rng, rng.choice([2 * p - 1, 2 * p, 2 * p + 1, 1 << nb, (1 << nb) + 1, (1 << 256) - 1, 1 << 256, 3 * p + 5, rng.randrange(1 << nb, 1 << (nb + 8))]), features)
+    return spell(rng, rng.randrange(1 << 16), features)
+
+
 class Gen:
     def __init__(self, rng, curve="BN254", template=None, max_depth=3, size=8):
         self.r = rng
@@ -36,6 +66,8 @@ class Gen:
         self.sig_out = []
         self.sig_mid = []
         self.comps = []         # (name, None) for a single component, (name, len) for a component array
+        self.bools = []         # locals that hold the value of a comparison
+        self.mats = []          # two-dimensional arrays (name, rows, columns)
         self.counter = 0
         self.depth_now = 0         # nesting depth of the block being generated
         self.outer_names = []      # scalar locals declared in enclosing blocks
@@ -43,16 +75,7 @@ class Gen:
 
     # ---- expressions ----
     def literal(self):
-        r = self.r
-        p = self.p
-        c = r.random()
-        if c < 0.45:
-            return str(r.choice([0, 1, 2, 3, 5, 7, 8, 16, 255, 256]))
-        if c < 0.7:
-            return str(r.choice([p - 1, p - 2, p // 2, p // 2 + 1, p // 2 - 1, 253, 254, 255, (1 << 64), (1 << 128) + 1]))
-        if c < 0.85:
-            return str(r.randrange(p))
-        return str(r.randrange(1 << 16))
+        return big_literal(self.r, self.p, self.features)
 
     def atoms(self, signals_ok):
         a = list(self.locals) + list(self.params)
@@ -94,6 +117,10 @@ class Gen:
                 self.features.add("array-read")
                 idx = str(r.randrange(ln)) if r.random() < 0.6 else self.expr(0, signals_ok)
                 return "%s[%s]" % (n, idx)
+            if self.mats and c < 0.72:
+                n, r1, r2 = r.choice(self.mats)
+                self.features.add("matrix-read")
+                return "%s[%s][%s]" % (n, str(r.randrange(r1)) if r.random() < 0.6 else self.expr(0, signals_ok), str(r.randrange(r2)))
             if self.uninit and c < 0.73:
                 self.features.add("uninit-read")
                 return r.choice(self.uninit)
@@ -122,6 +149,25 @@ class Gen:
 
     def cond(self, depth, signals_ok=True):
         r = self.r
+        k = r.random()
+        if k < 0.14:
+            # a FIELD-VALUED condition (non-zero is true): a variable, a numeral, a difference, a ternary, a call
+            self.features.add("field-valued-condition")
+            at = self.atoms(signals_ok)
+            j = r.random()
+            if at and j < 0.35:
+                return r.choice(at)
+            if j < 0.5:
+                return self.literal()
+            if at and j < 0.65:
+                v = r.choice(at)
+                return "(%s - %s)" % (v, v if r.random() < 0.5 else self.literal())
+            if j < 0.8:
+                return "(%s ? %s : %s)" % (self.cond(0, signals_ok), self.expr(0, signals_ok), self.expr(0, signals_ok))
+            return self.expr(max(1, depth), signals_ok)
+        if k < 0.2 and self.bools:
+            self.features.add("condition-held-in-a-variable")
+            return r.choice(self.bools)
         op = r.choice(["<", "<=", ">", ">=", "==", "!=", "==", "<"])
         c = "(%s %s %s)" % (self.expr(depth, signals_ok), op, self.expr(max(0, depth - 1), signals_ok))
         if r.random() < 0.2:
@@ -150,6 +196,30 @@ class Gen:
         r = self.r
         c = r.random()
         ind = "  " * (self.max_depth - depth + 1)
+        if self.locals and r.random() < 0.05:
+            n = self.fresh("v")
+            self.features.add("condition-held-in-a-variable")
+            s_ = "%svar %s = %s;" % (ind, n, self.cond(1))
+            self.locals.append(n)
+            self.bools.append(n)
+            return [s_]
+        if self.locals and r.random() < (0.14 if self.mats else 0.06):
+            if not self.mats or r.random() < 0.25:
+                n = self.fresh("mat")
+                r1, r2 = r.randrange(1, 3), r.randrange(1, 4)
+                self.mats.append((n, r1, r2))
+                self.features.add("matrix-decl")
+                if r.random() < 0.5:
+                    return ["%svar %s[%d][%d];" % (ind, n, r1, r2)]
+                return ["%svar %s[%d][%d] = [%s];" % (ind, n, r1, r2, ", ".join("[%s]" % ", ".join(self.expr(1) for _ in range(r2)) for _ in range(r1)))]
+            n, r1, r2 = r.choice(self.mats)        # an element write into a two-dimensional array; indices literal, local or signal
+            self.features.add("matrix-element-write")
+            ix = lambda ln: str(r.randrange(ln)) if r.random() < 0.6 else self.expr(0)
+            return ["%s%s[%s][%s] = %s;" % (ind, n, ix(r1), ix(r2), self.expr(2))]
+        if self.params and r.random() < 0.04:
+            q = r.choice(self.params)               # a parameter is assigned (its later versions have no declaration statement)
+            self.features.add("parameter-assigned")
+            return ["%s%s = %s;" % (ind, q, self.expr(1))] if r.random() < 0.6 else ["%s%s %s= %s;" % (ind, q, r.choice(["+", "*", "-"]), self.expr(1))]
         if c < 0.2 or not self.locals:
             n = self.fresh("v")
             if r.random() < 0.08:
@@ -188,7 +258,7 @@ class Gen:
             return ["%s%s[%s] = %s;" % (ind, n, idx, self.expr(2))]
         if c < 0.68 and depth > 0:
             self.features.add("if")
-            saved_sig = (list(self.sig_mid), list(self.comps))
+            saved_sig = (list(self.sig_mid), list(self.comps), list(self.bools), list(self.mats))
             saved = (list(self.locals), list(self.uninit), list(self.arrays))
             saved_outer = list(self.outer_names)
             self.outer_names = [x for x in self.locals if x.startswith("v")]
@@ -196,11 +266,14 @@ class Gen:
             bare = r.random() < 0.2          # a bare nested block `{ .. }`: a scope without a branch (no phi)
             if bare:
                 self.features.add("bare-block")
-            out = ["%s{" % ind] if bare else ["%sif %s {" % (ind, self.cond(1))]
+            out = ["%s{" % ind] if bare else ["%sif (%s) {" % (ind, self.cond(1))]
             for _ in range(r.randrange(1, 3)):
                 out += self.stmt(depth - 1, in_loop)
+            if not self.template and not bare and r.random() < 0.12:
+                self.features.add("return-under-control-flow")
+                out.append("%s  return %s;" % (ind, self.expr(1)))
             self.locals, un1, self.arrays = list(saved[0]), self.uninit, list(saved[2])
-            self.sig_mid, self.comps = list(saved_sig[0]), list(saved_sig[1])
+            self.sig_mid, self.comps, self.bools, self.mats = list(saved_sig[0]), list(saved_sig[1]), list(saved_sig[2]), list(saved_sig[3])
             if not bare and r.random() < 0.5:
                 self.features.add("else")
                 out.append("%s} else {" % ind)
@@ -208,7 +281,7 @@ class Gen:
                 for _ in range(r.randrange(1, 3)):
                     out += self.stmt(depth - 1, in_loop)
                 self.locals, self.arrays = list(saved[0]), list(saved[2])
-                self.sig_mid, self.comps = list(saved_sig[0]), list(saved_sig[1])
+                self.sig_mid, self.comps, self.bools, self.mats = list(saved_sig[0]), list(saved_sig[1]), list(saved_sig[2]), list(saved_sig[3])
             self.uninit = [u for u in saved[1]]
             self.depth_now -= 1
             self.outer_names = saved_outer
@@ -216,7 +289,7 @@ class Gen:
             return out
         if c < 0.8 and depth > 0:
             saved = (list(self.locals), list(self.uninit), list(self.arrays))
-            saved_sig = (list(self.sig_mid), list(self.comps))
+            saved_sig = (list(self.sig_mid), list(self.comps), list(self.bools), list(self.mats))
             saved_outer = list(self.outer_names)
             self.outer_names = [x for x in self.locals if x.startswith("v")]
             self.depth_now += 1
@@ -233,13 +306,17 @@ class Gen:
                 if self.template and self.sig_in and r.random() < 0.3:     # the trip count depends on a signal
                     self.features.add("signal-dependent-loop")
                     bound = r.choice(self.sig_in)
-                out = ["%swhile (%s < %s) {" % (ind, v, bound)]
+                if r.random() < 0.15:          # field-valued loop condition: runs until the difference is zero
+                    self.features.add("field-valued-condition")
+                    out = ["%swhile (%s - %s) {" % (ind, bound, v)]
+                else:
+                    out = ["%swhile (%s < %s) {" % (ind, v, bound)]
             for _ in range(r.randrange(1, 3)):
                 out += self.stmt(depth - 1, True)
             if k >= 0.5:
                 out.append("%s  %s = %s + 1;" % (ind, v, v))
             self.locals, self.uninit, self.arrays = saved
-            self.sig_mid, self.comps = saved_sig
+            self.sig_mid, self.comps, self.bools, self.mats = saved_sig
             self.depth_now -= 1
             self.outer_names = saved_outer
             out.append("%s}" % ind)
@@ -565,23 +642,116 @@ def lookalike_shape(rng, lit, k=None):
             % (idn, la, c1, idn, idn, la, la))
 
 
-FEATURE_SHAPES = [(component_shape, 9), (dimension_shape, 7), (nested_signal_shape, 6), (signal_loop_shape, 6), (lookalike_shape, 12)]
+def matrix_shape(rng, lit, k=None):
+    """Element writes into two-dimensional arrays: outer / inner index literal, parameter, loop counter or signal; the
+    element read back (through `<--`, a condition, a return) at the same or another position."""
+    k = rng.randrange(8) if k is None else k
+    pw = lambda x: rng.choice(["%s" % x, "%s * %s" % (x, x), "%s * a" % x, "%s + 1" % x])
+    if k == 0:     # a row chosen by a signal, the element by a literal; another row read
+        return ("template T() { signal input a; signal output c; var t[2][2]; t[a][%d] = %s; c <-- %s; }" % (rng.randrange(2), lit(), pw("t[%d][%d]" % (rng.randrange(2), rng.randrange(2)))))
+    if k == 1:     # the element chosen by a signal
+        return ("template T() { signal input a; signal output c; var t[2][2] = [[%s, %s], [%s, %s]]; t[%d][a] = %s; c <-- %s; }"
+                % (lit(), lit(), lit(), lit(), rng.randrange(2), rng.choice([lit(), "a", "a * a"]), pw("t[%d][%d]" % (rng.randrange(2), rng.randrange(2)))))
+    if k == 2:     # filled in a nest of loops from signals
+        return ("template T(n) { signal input in[2]; signal output c; var m[2][2]; for (var i = 0; i < 2; i++) { for (var j = 0; j < 2; j++) { m[i][j] = in[i] %s in[j]; } } m[%d][%d] = %s; c <-- %s; }"
+                % (rng.choice(["*", "+"]), rng.randrange(2), rng.randrange(2), lit(), pw("m[%d][%d]" % (rng.randrange(2), rng.randrange(2)))))
+    if k == 3:     # both indices from a parameter / a local that is merged
+        return ("template T(n) { signal input a; signal output c; var r = 0; if (n > %d) { r = 1; } var m[2][3]; m[r][n] = a * a; m[0][0] = %s; c <-- m[r][%d] * a; }" % (rng.randrange(3), lit(), rng.randrange(3)))
+    if k == 4:     # function: constants written and compared
+        return ("function f(n) { var m[2][2]; m[0][1] = %s; m[1][0] = n; m[0][1] = m[0][1] + 1; if (m[0][1] == %s) { return 1; } return m[1][0] + m[0][0]; }" % (lit(), lit()))
+    if k == 5:     # three dimensions, innermost index a signal
+        return ("template T() { signal input a; signal output c; var q[2][2][2]; q[0][1][a] = %s; q[1][0][0] = a; c <-- q[%d][%d][%d]; }" % (lit(), rng.randrange(2), rng.randrange(2), rng.randrange(2)))
+    if k == 6:     # a row of signals written element-wise, a 2-D signal array
+        return ("template T() { signal input a[2][2]; signal output c[2][2]; for (var i = 0; i < 2; i++) { c[i][%d] <-- a[i][0] * a[%d][i]; c[i][%d] <-- %s; } }" % (0, rng.randrange(2), 1, rng.choice(["a[0][0]", lit(), "a[i][i] * a[i][i] * a[0][1]"])))
+    return ("template T(n) { signal input a; signal input sel; signal output c; var t[2][2] = [[a, %s], [%s, a * a]]; t[sel][sel] = %s; c <-- t[%d][%d] %s; }"
+            % (lit(), lit(), lit(), rng.randrange(2), rng.randrange(2), rng.choice(["", "* a"])))
+
+
+ANON_LIB = (" template A() { signal input x; signal output y; y <== x * x; } template B() { signal input x; signal input z; signal output y; signal output w; y <== x * z; w <== x + z; }"
+            " template P(k) { signal input x[2]; signal output y; y <== x[0] * x[1] + k; } function g(u) { return u + 1; }")
+
+
+def anon_shape(rng, lit, k=None):
+    """Anonymous components and tuples: they exist only after the desugarer has run, so these programs are whole source
+    texts (marker `/*file*/`: the engine parses the text, runs the real remove_syntactic_sugar and lifts the FIRST
+    definition). Anonymous components inside loops become arrays of type AnonymousComponent."""
+    k = rng.randrange(8) if k is None else k
+    pw = lambda x: rng.choice(["%s" % x, "%s * %s" % (x, x), "%s * %s * %s" % (x, x, x), "%s * a" % x, "%s + a" % x])
+    if k == 0:
+        body = "signal input a; signal output o; signal t1 <== A()(a); signal t2 <== A()(a + 1); o <-- %s;" % pw("t1 * t2")
+    elif k == 1:   # in a loop: an array of anonymous components
+        body = "signal input a; signal input in[2]; signal output o[2]; for (var i = 0; i < 2; i++) { o[i] <== A()(in[i] %s); } signal q; q <-- %s;" % (rng.choice(["", "+ i", "* 2"]), pw("o[0] * o[1]"))
+    elif k == 2:   # tuple of outputs
+        body = "signal input a; signal input b; signal output o; signal (p, q) <== B()(a, b); o <-- %s;" % pw("p * q")
+    elif k == 3:   # underscore in a tuple, named inputs
+        body = "signal input a; signal input b; signal output o; signal q; (_, q) <== B()(z <== b, x <== a); o <-- %s;" % pw("q")
+    elif k == 4:   # parameters, array input, in a loop under a branch
+        body = ("signal input a; signal input in[2]; signal output o; var acc = 0; for (var i = 0; i < %s; i++) { if (i == %d) { signal s <== P(i)(in); acc = acc + s; } } o <-- acc %s;"
+                % (rng.choice(["2", "n"]), rng.randrange(2), rng.choice(["", "* a", "* acc"])))
+    elif k == 5:   # nested loops: two-dimensional arrays of anonymous components
+        body = "signal input a; signal input in[2]; signal output o[2][2]; for (var i = 0; i < 2; i++) { for (var j = 0; j < 2; j++) { (o[i][j], _) <== B()(in[i], in[j]); } } signal q; q <-- %s;" % pw("o[0][1]")
+    elif k == 6:   # a function call next to an anonymous component
+        body = "signal input a; signal output o; var c = g(%s); signal t <== A()(a * c); o <-- %s;" % (lit(), pw("t"))
+    else:          # anonymous component under a branch on a parameter, result merged through a local
+        body = "signal input a; signal output o; var x = a; if (n > %d) { signal t <== A()(a); x = t; } o <-- %s;" % (rng.randrange(3), pw("x"))
+    return "/*file*/ template T(n) { %s }%s" % (body, ANON_LIB)
+
+
+def condition_shape(rng, lit, k=None, p=None):
+    """Conditions that are field elements (a numeral, a variable, a difference, a ternary), Booleans held in variables,
+    literals that are not reduced (p, p + 1, 2^nbits - 1, 2^256 - 1, hexadecimal), `return` under control flow."""
+    k = rng.randrange(10) if k is None else k
+    big = lambda: lit()
+    if k == 0:
+        return "function f(n) { var r = 0; if (%s) { r = 1; } if (%s) { r += 2; } if (r == %d) { return 1; } return r; }" % (rng.choice(["0", "1", "3", big()]), rng.choice(["0", "2", big()]), rng.randrange(4))
+    if k == 1:
+        return "function f(n) { var x = %s; var y = x - x; var r = 0; if (y) { r = 1; } if (x - %s) { r += 2; } if (x) { r += 4; } return r; }" % (big(), big())
+    if k == 2:
+        return "function f(n) { var x = %s; var c = x < %s; var d = (x == x); var r = 0; if (c) { r = 1; } if (d) { r += 2; } if (c && d) { r += 4; } if (r == %d) { return 0; } return r; }" % (big(), big(), rng.randrange(8))
+    if k == 3:     # a literal with as many bits as the prime, not reduced: parity and comparisons
+        if p is not None:
+            nb = p.bit_length()
+            x = rng.choice([p + 1, p + 2, (1 << nb) - 1, rng.randrange(p, 1 << nb), p + rng.randrange(1, 1000)])
+            return ("function f() { var x = %s; var r = 0; if ((x & 1) == 1) { r = 1; } if (x == %d) { r += 2; } if (x < %s) { r += 4; } if ((x | 1) == %d) { r += 8; } return r + (x >> 1); }"
+                    % (spell(rng, x), x - p, big(), (x - p) | 1))
+        return "function f() { var x = %s; var r = 0; if ((x & 1) == 1) { r = 1; } if (x == %s) { r += 2; } if (x < %s) { r += 4; } return r + (x >> 1); }" % (big(), big(), big())
+    if k == 4:
+        return "template T(n) { signal input a; signal output b; var x = %s; var r = 0; if (n) { r = x; } if (a) { r = r + 1; } if (x %s %s) { r = r + 2; } b <-- r; }" % (big(), rng.choice(["-", "&", "+"]), big())
+    if k == 5:     # return under control flow: in a loop, in nested branches
+        return "function f(n) { var acc = %s; for (var i = 0; i < %s; i++) { if (i == %d) { return acc; } acc += i; } if (acc) { if (n == 2) { return acc + 1; } else { return 0; } } return acc; }" % (lit(), rng.choice(["3", "n"]), rng.randrange(3))
+    if k == 6:     # while with a field-valued condition, counting down
+        return "function f(n) { var k = %d; var acc = 0; while (k) { acc += k; k -= 1; } if (acc == %d) { return 1; } return acc; }" % (rng.randrange(1, 5), rng.randrange(12))
+    if k == 7:     # ternary and call as conditions
+        return "function f(n) { var x = %s; var r = 0; if (x ? 0 : 1) { r = 1; } if (n ? x : 0) { r += 2; } if (ext(x)) { r += 4; } return r; }" % big()
+    if k == 8:     # hexadecimal spellings
+        return "function f() { var x = 0x%x; var y = 0x%X; var r = 0; if (x == y) { r = 1; } if (x + 1 == %s) { r += 2; } return r + x; }" % (rng.choice([255, 1 << 64]), rng.choice([255, (1 << 64) + 1]), lit())
+    return "template T(n) { signal input a; signal output b; var c = a == %s; var d = %s < %s; var x = %s; if (c) { x = 1; } if (d) { x = x + 1; } b <-- x; }" % (lit(), big(), big(), lit())
+
+
+FEATURE_SHAPES = [(component_shape, 9), (dimension_shape, 7), (nested_signal_shape, 6), (signal_loop_shape, 6), (lookalike_shape, 12), (matrix_shape, 8), (anon_shape, 8), (condition_shape, 10)]
 
 
 def feature_stratum(rng, curve="BN254"):
     """One program of every hand shape of the four feature families (components, dimensions that read variables,
     signals declared under control flow, loops bounded by a signal), with random details: part of every run."""
     p = PRIMES[curve]
-    lit = lambda: str(rng.choice([0, 1, 2, 3, 5, p - 1, p // 2, p // 2 + 1, 255, 256, 1 << 20]))
-    return [f(rng, lit, k) for f, n in FEATURE_SHAPES for k in range(n)]
+    lit = lambda: (str(rng.choice([0, 1, 2, 3, 5, p - 1, p // 2, p // 2 + 1, 255, 256, 1 << 20])) if rng.random() < 0.85 else big_literal(rng, p))
+    big = lambda: big_literal(rng, p)
+    return [(f(rng, big, k, p) if f is condition_shape else f(rng, lit, k)) for f, n in FEATURE_SHAPES for k in range(n)]
 
 
 def targeted(rng, curve="BN254"):
     """Hand-shaped programs aimed at known weak spots (phi without default path,
     values merged at joins, loops, every operator on constants)."""
     p = PRIMES[curve]
-    lit = lambda: str(rng.choice([0, 1, 2, 3, 5, p - 1, p // 2, p // 2 + 1, 255, 256, 1 << 20]))
-    k = rng.randrange(41)
+    lit = lambda: (str(rng.choice([0, 1, 2, 3, 5, p - 1, p // 2, p // 2 + 1, 255, 256, 1 << 20])) if rng.random() < 0.85 else big_literal(rng, p))
+    k = rng.randrange(50)
+    if k >= 47:
+        return condition_shape(rng, lambda: big_literal(rng, p), None, p)
+    if k >= 44:
+        return anon_shape(rng, lit)
+    if k >= 41:
+        return matrix_shape(rng, lit)
     if k >= 38:
         return lookalike_shape(rng, lit)
     if k >= 35:
